@@ -11,7 +11,7 @@ inductive Want
 
 partial def parseWant : List String → Option (Want × List String)
   | "S" :: ct :: _cte :: kind :: content :: rest => do
-    some (.leaf (← ofHex ct) (kind == "s") (← ofHex content), rest)
+    some (.leaf (← ofHex ct) (kind == "s" || kind == "P") (← ofHex content), rest)
   | "M" :: kind :: _b :: n :: rest => do
     let n ← n.toNat?
     let rec go (k : Nat) (toks : List String) (acc : List Want) : Option (List Want × List String) :=
@@ -82,7 +82,8 @@ partial def agrees (root : Bool) : Want → Skel → Option String
     match field fields "content-type" with
     | none => some "multipart-without-content-type"
     | some v =>
-      if !(str s!"multipart/{kindName kind}").isPrefixOf (v.map lowerB) then some "multipart-kind-differs"
+      if !(str s!"multipart/{kindName kind.toLower}").isPrefixOf (v.map lowerB) then some "multipart-kind-differs"
+      else if kind.all Char.isUpper && (field fields "content-id").isNone then some "header-set-before-the-boundary-is-missing"
       else if wants.length != parts.length then some s!"number-of-parts-differs:{parts.length}"
       else (wants.zip parts).findSome? fun (w, p) => agrees false w p
   | .leaf .., .multi .. => some "leaf-read-as-multipart"
